@@ -185,6 +185,9 @@ func recoverStep(w *World, r *Report, rule, fnName string) *stepCtx {
 		if !l.hdr.Dominates(st.Block()) {
 			return
 		}
+		if ms, isMake := ia.X.(*ssa.MakeSlice); isMake && l.hdr.Dominates(ms.Block()) {
+			return // a vector made during this step (the operand vector of R-STEPARGS), not the operand stack
+		}
 		pushes = append(pushes, st)
 	})
 	if len(pushes) != 1 {
@@ -577,13 +580,21 @@ func ruleStepArgs(w *World, r *Report, s *stepCtx) {
 					}
 				}
 			}
-			if cp == nil {
+			var srcVal ssa.Value
+			var cpAt ssa.Instruction
+			if cp != nil {
+				srcVal, cpAt = cp.Call.Args[1], cp
+			} else if sv, st, hdr, okL := copyLoopInto(x); okL && x.Block().Dominates(hdr) && hdr.Dominates(a.from) && !reachableAvoiding(opCall.Block(), hdr, func(b *ssa.BasicBlock) bool { return b == s.l.hdr }) {
+				// the copy written as an element loop: for j := 0; j < len(operands) [&& j < len(src)]; j++ { operands[j] = src[j] }
+				srcVal, cpAt = sv, st
+			}
+			if srcVal == nil {
 				r.Fail(rule, w.InstrPos(x), s.name, "copy(operands, os[..])", "the fresh operand vector is not filled from the operand stack before the operator is applied")
 				continue
 			}
-			src, ok := cp.Call.Args[1].(*ssa.Slice)
+			src, ok := srcVal.(*ssa.Slice)
 			good := ok && src.X == s.os && src.Low != nil
-			got := describe(cp.Call.Args[1])
+			got := describe(srcVal)
 			if good {
 				f, okl := linearise(src.Low, leaf, 0)
 				good = okl && f.equal(mkLin("T", 1, "C", -1, "", 1))
@@ -600,7 +611,7 @@ func ruleStepArgs(w *World, r *Report, s *stepCtx) {
 				}
 				got += "]"
 			}
-			r.Check(good, rule, w.InstrPos(cp), s.name, "copy(operands, "+got+")", "from os[osTop-childCnt+1:] — all childCnt operands in source order", "the operands are not copied from the popped region of the stack")
+			r.Check(good, rule, w.InstrPos(cpAt), s.name, "copy(operands, "+got+")", "from os[osTop-childCnt+1:] — all childCnt operands in source order", "the operands are not copied from the popped region of the stack")
 		default:
 			r.Fail(rule, w.Pos(a.v.Pos()), s.name, "operands = "+describe(a.v), "the operand vector of the operator arm is neither the two-slot buffer nor a fresh childCnt-long copy of the popped stack region (a fixed-size scratch area truncates or pads wider operators)")
 		}
@@ -632,6 +643,80 @@ func ruleStepArgs(w *World, r *Report, s *stepCtx) {
 			r.Check(good, rule, w.InstrPos(st), s.name, fmt.Sprintf("param2[%d] = %s", slot, describe(st.Val)), fmt.Sprintf("result #0 of getNodeValueProxy(ctx, nodes[i+%d]) and nothing else", slot+1), fmt.Sprintf("operand %d of a fast operator has another source than the value of its own leaf (a reused sibling value, a default)", slot+1))
 		}
 	}
+}
+
+// copyLoopInto recognises `for j := 0; j < len(dst) [&& j < len(src)]; j++ { dst[j] = src[j] }`, the built-in
+// copy(dst, src) written out: the counter starts at 0 and advances by one, every iteration stores src[j] into
+// dst[j], the loop runs while j < len(dst), and dst has no other element store.
+func copyLoopInto(dst ssa.Value) (ssa.Value, *ssa.Store, *ssa.BasicBlock, bool) {
+	var src ssa.Value
+	var store *ssa.Store
+	var hdr *ssa.BasicBlock
+	n := 0
+	for _, ref := range referrers(dst) {
+		ia, ok := ref.(*ssa.IndexAddr)
+		if !ok || ia.X != dst {
+			continue
+		}
+		n++
+		j, ok := ia.Index.(*ssa.Phi)
+		if !ok {
+			return nil, nil, nil, false
+		}
+		h := j.Block()
+		for i, e := range j.Edges {
+			if !h.Dominates(h.Preds[i]) {
+				if c, okc := constInt(e); !okc || c != 0 {
+					return nil, nil, nil, false
+				}
+				continue
+			}
+			inc, okI := e.(*ssa.BinOp)
+			if !okI || inc.Op != token.ADD || inc.X != ssa.Value(j) {
+				return nil, nil, nil, false
+			}
+			if c, okc := constInt(inc.Y); !okc || c != 1 {
+				return nil, nil, nil, false
+			}
+		}
+		for _, ref2 := range referrers(ia) {
+			st, okS := ref2.(*ssa.Store)
+			if !okS || st.Addr != ssa.Value(ia) {
+				return nil, nil, nil, false
+			}
+			addr, okL := isLoad(st.Val)
+			if !okL {
+				return nil, nil, nil, false
+			}
+			sia, okA := addr.(*ssa.IndexAddr)
+			if !okA || sia.Index != ssa.Value(j) {
+				return nil, nil, nil, false
+			}
+			// runs while j < len(dst)
+			bounded := false
+			for _, f := range factsAt(st.Block()) {
+				if cmp, okc := f.Cond.(*ssa.BinOp); okc && cmp.Op == token.LSS && f.Truth && cmp.X == ssa.Value(j) {
+					if la, okl := lenArg(cmp.Y); okl && la == dst {
+						bounded = true
+					}
+				}
+			}
+			// every iteration stores
+			for i := range j.Edges {
+				if p := h.Preds[i]; h.Dominates(p) && !st.Block().Dominates(p) {
+					return nil, nil, nil, false
+				}
+			}
+			if !bounded {
+				return nil, nil, nil, false
+			}
+			src, store, hdr = sia.X, st, h
+		}
+	}
+	if n != 1 || src == nil {
+		return nil, nil, nil, false
+	}
+	return src, store, hdr, true
 }
 
 // feedsPushIndex: phi p is (transitively) the X of the push's index osTop+1.
@@ -752,6 +837,12 @@ var stepWitnessesEval = []Witness{
 }
 
 var stepWitnessesTry = []Witness{
+	{Name: "benign-tryeval-copy-written-as-loop", Rule: "R-STEPARGS", Benign: true, Edits: []Edit{
+		{File: "engine.go", Old: "\t\t\t\tcopy(param, os[osTop+1:])", New: "\t\t\t\toperands := os[osTop+1:]\n\t\t\t\tfor j := 0; j < len(param) && j < len(operands); j++ {\n\t\t\t\t\tparam[j] = operands[j]\n\t\t\t\t}"}}},
+	{Name: "tryeval-copy-loop-skips-first-operand", Rule: "R-STEPARGS", Edits: []Edit{
+		{File: "engine.go", Old: "\t\t\t\tcopy(param, os[osTop+1:])", New: "\t\t\t\toperands := os[osTop+1:]\n\t\t\t\tfor j := 1; j < len(param) && j < len(operands); j++ {\n\t\t\t\t\tparam[j] = operands[j]\n\t\t\t\t}"}}},
+	{Name: "tryeval-copy-loop-from-wrong-offset", Rule: "R-STEPARGS", Edits: []Edit{
+		{File: "engine.go", Old: "\t\t\t\tcopy(param, os[osTop+1:])", New: "\t\t\t\toperands := os[osTop:]\n\t\t\t\tfor j := 0; j < len(param) && j < len(operands); j++ {\n\t\t\t\t\tparam[j] = operands[j]\n\t\t\t\t}"}}},
 	{Name: "tryeval-operator-scratch-buffer", Rule: "R-STEPARGS", Edits: []Edit{
 		{File: "engine.go", Old: "				param = make([]Value, cCnt)\n				copy(param, os[osTop+1:])", New: "				var scratch [16]Value\n				param = scratch[:copy(scratch[:], os[osTop+1:osTop+1+cCnt])]"}}},
 	{Name: "tryeval-fast-same-varkey-reuses-first-operand", Rule: "R-STEPARGS", Edits: []Edit{
